@@ -11,7 +11,10 @@ SPECS = {
                + [{"entry": "vh_c05_tagged", "label": "vh_c05_tagged.r1.f%d.k%d" % (f, k), "fix": {"rank": 1, "focus": f, "n": 1, "kind#%d" % f: k, "kind#%d" % (1 - f): [1, 3, 4, 0, 1][k]}, "tiers": ["quick"]} for f in range(2) for k in range(5)]
                + [{"entry": e, "label": "%s.r1.f%d.k%d.o%d" % (e, f, k, o), "fix": {"rank": 1, "focus": f, "kind#%d" % f: k, "kind#%d" % (1 - f): o}, "tiers": ["thorough"]} for e in ("vh_c05_tagged", "vh_c05_feature") for f in range(2) for k in range(5) for o in range(5)]
                + [{"entry": "vh_c05_tagged", "label": "vh_c05_tagged.r2.f%d.k%d" % (f, k), "fix": dict([("rank", 2), ("focus", f), ("n", 1)] + [("kind#%d" % d, (k if d == f else (k + 1 + d) % 5)) for d in range(3)]), "tiers": ["thorough"]} for f in range(3) for k in range(5)]
-               + [{"entry": "vh_c05_tagged", "label": "vh_c05_tagged.real.k%d" % k, "fix": {"rank": 0, "kind#0": k}, "no_replace": ["getSampledIndex", "getSetIndex", "getDataFrameIndex"], "tiers": ["thorough"]} for k in (0, 1, 3, 4)]}]},
+     },
+     {"file": "C05_tag.cpp", "tiers": ["thorough"], "defines": {"thorough": ["-DVH_MAXRANK=1", "-DVH_MAXEXT=2", "-DVH_NSAMPLING=3", "-DVH_REAL_KERNELS=1"]},
+      "entries": [{"entry": "vh_c05_tagged", "label": "vh_c05_tagged.real.k%d.n%d.x%d" % (k, n, x), "fix": {"rank": 0, "kind#0": k, "n": n, "extent": x}, "no_replace": ["getSampledIndex", "getSetIndex", "getDataFrameIndex"],
+                   "limits": {"thorough": {"timeout": 3000}}} for k in (0, 1, 3, 4) for n in range(2) for x in range(2)]}]},
  "C06": {
   "explanation": "Real util::taggedData / featureData (list and single-index overloads, MultiTag::taggedData with the default mode) / getOffsetAndCount(MultiTag) / positionToIndex / Dimension::indexOf pair logic / DataView / back-end on arrays stored in the HDF5 model; positions/extents arrays of N rows and rank-1, rank or rank+1 columns, row 0 symbolic in one focus dimension; index lists incl. indices past the end; oracle as in C05 applied to row i; list retrieval must equal the single retrievals; Indexed/Untagged/Tagged features. Quick tier: arithmetic index kernels replaced by the C07 relation (see C05).",
   "bounds": {"quick": {"rank": "1..2", "extent_per_axis": "1..2", "positions": "1..2 rows", "index_lists": 6, "dimension_kinds": 5},
